@@ -223,6 +223,12 @@ class Interp(object):
         self.opts = opts
         self.depth = 0
         self.havoc = set(opts.get('havoc', ()))
+        # names given by the checks are resolved: the function may be defined elsewhere (pulled up / moved and imported back)
+        for q in list(self.havoc):
+            try:
+                self.havoc.add(model.func(q).qualname)
+            except Exception:
+                pass
         self.call_hooks = opts.get('call_hooks', {})       # qualname -> f(interp, args, kwargs)
         self.attr_hook = opts.get('attr_hook')             # f(interp, obj, name) -> value | NotImplemented
         self.ext_hooks = opts.get('ext_hooks', {})         # dotted -> f(interp, args, kwargs)
@@ -230,7 +236,12 @@ class Interp(object):
         self.func_stack = []
         self.called = set()                                 # qualnames of every package function entered (not hooked) on this run
         self._fp_cache = opts.setdefault('__fp_cache__', {})
-        self.abstract = opts.get('abstract', {})            # function qualname -> set of local names to abstract
+        self.abstract = dict(opts.get('abstract', {}))      # function qualname -> set of local names to abstract
+        for q in list(self.abstract):
+            try:
+                self.abstract.setdefault(model.func(q).qualname, self.abstract[q])
+            except Exception:
+                pass
         self.definitions = []                               # [(qualname, local, occurrence, atom Rat, defining value)]
         self.events = []
         self._const_cache = {}
@@ -631,6 +642,13 @@ class Interp(object):
 
     def st_ImportFrom(self, st, env):
         for al in st.names:
+            if st.level >= 1 and st.module in self.model.modules:
+                # function-level relative import (used to break import cycles): a name of another module of the package
+                r = self.model.resolve_global(self.model.modules[st.module], al.name)
+                if r is None:
+                    raise PyRaise('ImportError', al.name)
+                env.vars[al.asname or al.name] = self._global_value(r)
+                continue
             env.vars[al.asname or al.name] = ExtRef('%s.%s' % (st.module, al.name))
 
     def st_Try(self, st, env):
@@ -752,7 +770,46 @@ class Interp(object):
         if isinstance(o, Opaque):
             o.attrs[name] = v
             return
+        if isinstance(o, ClassRef):
+            # class attribute set after the class body (class decorators, registration code)
+            o.info.__dict__.setdefault('runtime_attrs', {})[name] = v
+            return
         raise Undecidable('attribute store on %r' % (o,))
+
+    def _class_env(self, cls):
+        """scope in which a class-body expression is evaluated: the methods defined so far are plain functions there
+        (dispatch tables like `_HANDLERS = {'M': _parse_moveto, ...}`)"""
+        env = Env(module=cls.module)
+        for nm, m in cls.methods.items():
+            env.vars[nm] = Closure(m, m.node, None, m.module, None, cls)
+        return env
+
+    def _ensure_decorated(self, cls):
+        """run the class decorators once (they may only annotate the class: `cls.x = ...; return cls`)"""
+        if cls.__dict__.get('decorated') or not cls.node.decorator_list:
+            return
+        cls.__dict__['decorated'] = True
+        for d in reversed(cls.node.decorator_list):
+            f = self.eval(d, Env(module=cls.module))
+            r = self.call(f, [ClassRef(cls)], {})
+            if not (isinstance(r, ClassRef) and r.info is cls):
+                cls.__dict__['decorated'] = False
+                raise Undecidable('class decorator of %s returns something else than the class' % cls.qualname)
+
+    def _runtime_class_attr(self, cls, name, own_only=False):
+        self._ensure_decorated(cls)
+        ra = cls.__dict__.get('runtime_attrs')
+        if ra and name in ra:
+            return ra[name]
+        if own_only:
+            return _MISSING
+        for b in cls.bases:
+            r = self.model.resolve_global(cls.module, b.split('.')[-1])
+            if r and r[0] == 'class' and r[1] is not cls:
+                v = self._runtime_class_attr(r[1], name)
+                if v is not _MISSING:
+                    return v
+        return _MISSING
 
     def setitem(self, c, idx, v):
         if isinstance(c, Obj):
@@ -804,6 +861,8 @@ class Interp(object):
         mod = env.module
         if mod is not None:
             ov = self.global_overrides.get((mod.name, name), _MISSING)
+            if ov is _MISSING:
+                ov = self.global_overrides.get(('*', name), _MISSING)      # whichever module holds the flag
             if ov is not _MISSING:
                 return ov
             r = self.model.resolve_global(mod, name)
@@ -1047,8 +1106,15 @@ class Interp(object):
                 r = self.attr_hook(self, o, name)
                 if r is not NotImplemented:
                     return r
+            if cls.node.decorator_list or cls.__dict__.get('runtime_attrs'):
+                rv = self._runtime_class_attr(cls, name, own_only=True)
+                if rv is not _MISSING:
+                    return rv
             if name in cls.class_attrs:
-                return self.eval(cls.class_attrs[name], Env(module=cls.module))
+                return self.eval(cls.class_attrs[name], self._class_env(cls))
+            rv = self._runtime_class_attr(cls, name)
+            if rv is not _MISSING:
+                return rv
             mixin = bm.mixin_method(self, o, name)
             if mixin is not None:
                 return mixin
@@ -1069,8 +1135,14 @@ class Interp(object):
             if name in o.info.methods:
                 m = o.info.methods[name]
                 return Closure(m, m.node, None, m.module, ClassRef(o.info) if m.is_classmethod else None, o.info)
+            rv = self._runtime_class_attr(o.info, name, own_only=True)
+            if rv is not _MISSING:
+                return rv
             if name in o.info.class_attrs:
-                return self.eval(o.info.class_attrs[name], Env(module=o.info.module))
+                return self.eval(o.info.class_attrs[name], self._class_env(o.info))
+            rv = self._runtime_class_attr(o.info, name)
+            if rv is not _MISSING:
+                return rv
             if name == '__name__':
                 return o.info.name
             raise PyRaise('AttributeError', name)
@@ -1157,8 +1229,25 @@ class Interp(object):
             return self.subscript(args[0], f.k)
         raise Undecidable('call of %r' % (f,))
 
+    def _find_class_hook(self, info):
+        h = self.call_hooks.get(info.qualname)
+        if h is not None or not self.call_hooks:
+            return h
+        cache = self.__dict__.setdefault('_class_hook_alias', {})
+        for key, h in list(self.call_hooks.items()):
+            if key.count('.') != 1 or '<' in key:
+                continue
+            if key not in cache:
+                try:
+                    cache[key] = self.model.cls(key)
+                except Exception:
+                    cache[key] = None
+            if cache[key] is info:
+                return h          # the class was moved to another module and imported back under the hooked name
+        return None
+
     def instantiate(self, info, args, kwargs):
-        hook = self.call_hooks.get(info.qualname)
+        hook = self._find_class_hook(info)
         if hook is not None:
             r = hook(self, args, kwargs)
             if r is not NotImplemented:
